@@ -265,8 +265,14 @@ pub fn c02(args: &Args) -> i32 {
             &format!("liveness-d1/{name}"),
             coverage(&s, "all schedules with exactly ≤ 1 deviation: at every datagram of the run one of {drop, dup, delay, 4 truncations, 14 bit-flip classes}; the network is perfect afterwards and the run continues to quiescence; distinct = executions with a deviation".into()),
         );
-        if th || name == "echo3k" {
-            let (limit, second): (usize, Vec<Fate>) = if th { (40, alphabet(false)) } else { (12, vec![Fate::Drop, Fate::Delay]) };
+        if th || matches!(name, "echo3k" | "echo0" | "uni-each-way-seg1") {
+            let (limit, second): (usize, Vec<Fate>) = if th {
+                (40, alphabet(false))
+            } else if name == "echo3k" {
+                (24, vec![Fate::Drop, Fate::Delay, Fate::Dup])
+            } else {
+                (14, vec![Fate::Drop, Fate::Delay])
+            };
             let s2 = search(&mut report, name, &cfg, 2, limit, false, &second, "C02");
             report.sub(
                 &format!("liveness-d2/{name}"),
@@ -318,7 +324,7 @@ pub fn c02(args: &Args) -> i32 {
         // safety profile: unbounded faults from datagram k on
         let n = s.baseline_len;
         let mut tails = Vec::new();
-        for k in (0..n).step_by(if th { 1 } else { 2 }) {
+        for k in 0..n {
             tails.push(Tail::DropAll { from: k });
             tails.push(Tail::FlipFirstByteAll { from: k });
             tails.push(Tail::TruncAll { from: k, k: 10 });
